@@ -78,6 +78,20 @@ func genRenderData(r *vk.RNG, maxContainers int) []renderStream {
 				}
 				s.Entries = append(s.Entries, renderEntry{Container: name, TS: ts, Msg: msg.String()})
 			}
+			if len(s.Entries) >= 2 && r.Chance(1, 5) {
+				// a result is not obliged to list a stream's entries oldest first: newest-first responses,
+				// entries in arrival order
+				if r.Bool() {
+					for i, j := 0, len(s.Entries)-1; i < j; i, j = i+1, j-1 {
+						s.Entries[i], s.Entries[j] = s.Entries[j], s.Entries[i]
+					}
+				} else {
+					for i := len(s.Entries) - 1; i > 0; i-- {
+						j := r.Intn(i + 1)
+						s.Entries[i], s.Entries[j] = s.Entries[j], s.Entries[i]
+					}
+				}
+			}
 			streams = append(streams, s)
 		}
 	}
@@ -331,6 +345,49 @@ func runC15(r *vk.Run) {
 			c.Sample("render", map[string]any{"containers": len(names), "entries": len(all), "output_head": trunc(string(out), 300)})
 		}
 	})
+	// long results (a day of logs of a few busy containers): one line per entry however many entries there
+	// are, well beyond any chunk or buffer size a renderer may work in (tens of thousands of entries)
+	r.Phase("bulk", r.N(2, 8), func(c *vk.Case) {
+		rng := c.Rng
+		nc := rng.Range(1, 5)
+		total := vk.Pick(rng, []int{40000, 70000, 33000, 100000})
+		streams := make([]renderStream, nc)
+		for ci := range streams {
+			streams[ci] = renderStream{Labels: map[string]string{"container": fmt.Sprintf("ctr-%d", ci), "container_id": fmt.Sprintf("id%d", ci)}}
+		}
+		ts := int64(1700000000) * 1e9
+		var all []renderEntry
+		for i := 0; i < total; i++ {
+			ts += int64(rng.Intn(1e6)) + 1 // distinct timestamps: the order is fully determined
+			ci := rng.Intn(nc)
+			msg := fmt.Sprintf("m%d", i)
+			if rng.Chance(1, 50) {
+				msg += vk.Pick(rng, c15MsgAtoms)
+			}
+			e := renderEntry{Container: streams[ci].Labels["container"], TS: ts, Msg: msg}
+			streams[ci].Entries = append(streams[ci].Entries, e)
+			all = append(all, e)
+		}
+		data := toLokiStreams(streams)
+		for opt := 0; opt < 8; opt++ {
+			showTS, showName, color := opt&1 != 0, opt&2 != 0, opt&4 != 0
+			out, err := Cmd.Render(showTS, showName, color, data)
+			c.Eval(1)
+			det := map[string]any{"containers": nc, "entries": total, "timestamp": showTS, "container": showName, "color": color, "output_bytes": len(out), "output_lines": bytes.Count(out, []byte("\n"))}
+			if err != nil {
+				c.Fail("", "renderResult failed: "+err.Error(), det)
+				return
+			}
+			if msg, _ := consumeOutput(out, all, showTS, showName, color); msg != "" {
+				c.Fail("", fmt.Sprintf("timestamp=%v container=%v color=%v, %d entries of %d containers: %s", showTS, showName, color, total, nc, trunc(msg, 300)), det)
+				return
+			}
+			c.Count("bulk_renders", 1)
+		}
+		c.Max("entries_in_one_result", int64(total))
+		c.Nontrivial(fmt.Sprintf("bulk|%d", c.Idx))
+	})
+	r.Require("bulk_renders", 8)
 	// end to end: the plugin binary with its real flags against the fake daemon, 12 containers
 	r.Phase("e2e", r.N(16, 1600), func(c *vk.Case) {
 		rng := c.Rng
